@@ -13,7 +13,7 @@ pub fn meta() -> Meta {
     Meta {
         id: "C12",
         level: "exploration",
-        rule: "paired FASTQ read sets through the real SkaDict::new (in-process) against a brute-force count model: genome g of k+2 letters and a variant g' differing in the middle base of the central window, k in {5,9,31,33} (thorough: + 7, 63), both strand modes. Family A (counts): min-count c=1..6 x every multiplicity pair (a,a') in {0,c-1,c,c+1}^2 for the two central k-mers x every split of each multiplicity between file 1 (forward) and file 2 (reverse complement). Family B (quality): c in 1..3, three quality rules x min-qual in {0,1,20,40} x one designated low-quality base (middle, middle-1, first, last of a k-long read; positions 0, h, h+1, k+1 of a (k+2)-long read) with quality in {Q-1,Q,Q+1} on exactly one of the c copies. Family C: N at every position of the long read. Family D: the same through `ska build -f` option parsing. One larger data set (~2*10^4 distinct k-mers plus singleton error k-mers) bounds the share of below-threshold k-mers that enter. Non-trivial = the model's dictionary is non-empty or a k-mer sits exactly at a threshold.".into(),
+        rule: "paired FASTQ read sets through the real SkaDict::new (in-process) against a brute-force count model: genome g of k+2 letters and a variant g' differing in the middle base of the central window, k in {5,9,31,33} (thorough: + 7, 63), both strand modes. Family A (counts): min-count c=1..6 x every multiplicity pair (a,a') in {0,c-1,c,c+1}^2 for the two central k-mers x every split of each multiplicity between file 1 (forward) and file 2 (reverse complement). Family B (quality): c in 1..3, three quality rules x min-qual in {0,1,20,40} x one designated low-quality base (middle, middle-1, first, last of a k-long read; positions 0, h, h+1, k+1 of a (k+2)-long read) with quality in {Q-1,Q,Q+1} on exactly one of the c copies. Family C: N at every position of the long read. Family D: the same through `ska build -f` option parsing. Family E (k in {5,33}; thorough + 7, 31, 63): every multiset of up to three reads drawn from all substrings of length k..k+3, both orientations, of a (k+3)-letter genome and of its one-substitution variant (quick: triples from the genome only), all in file 1 or alternating between the files, c=1..3 (the same k-mer met as first window of one read and as rolled window of another, on either strand); and every pair of such reads with one base of quality Q-1 or Q at every position of the first (k<=7; ends and window middles otherwise; quick: k=5 only), middle and strict rule, c=1..2. One larger data set (~2*10^4 distinct k-mers plus singleton error k-mers) bounds the share of below-threshold k-mers that enter. Non-trivial = the model's dictionary is non-empty or a k-mer sits exactly at a threshold.".into(),
         assumptions: vec!["an extra entry would only be acceptable as a counting-filter collision; on these inputs none is expected and any extra is reported".into(), "a sample in which nothing reaches the threshold may be refused".into()],
         exhaustive_when_uncapped: true,
     }
@@ -248,6 +248,114 @@ pub fn run(ctx: &Ctx, rep: &mut Report) {
             }
         }
         rep.completed.push(format!("k={k} families A, B, C"));
+    }
+    // Family E: every multiset of up to three reads drawn from all substrings (length k..k+3, both orientations)
+    // of a genome of k+3 letters and of its one-substitution variant: the same k-mer is met at different offsets of
+    // different reads (first window vs rolled windows), on both strands, in either file.
+    let eks: Vec<usize> = if thorough { vec![5, 7, 31, 33, 63] } else { vec![5, 33] };
+    for k in eks {
+        let h = (k - 1) / 2;
+        let g = repeat_free(k + 3, k, 0, ctx.seed + 125);
+        let mut g2 = g.clone();
+        g2[1 + h] = comp(g2[1 + h]);
+        let mut menu: Vec<Vec<u8>> = Vec::new();
+        for src in [&g, &g2] {
+            for len in k..=k + 3 {
+                for s in 0..=(k + 3 - len) {
+                    let w = src[s..s + len].to_vec();
+                    menu.push(rc_str_n(&w));
+                    menu.push(w);
+                }
+            }
+        }
+        let half = menu.len() / 2; // reads of g only
+        for rc in [true, false] {
+            // E1: counts, quality irrelevant
+            let m3 = if thorough { menu.len() } else { half };
+            for i in 0..menu.len() {
+                for j in i..menu.len() {
+                    for l in j..=menu.len() {
+                        // l == menu.len() stands for "no third read"
+                        if l < menu.len() && (i >= m3 || j >= m3 || l >= m3) {
+                            continue;
+                        }
+                        idx += 1;
+                        if !ctx.mine(idx) {
+                            continue;
+                        }
+                        let mut picks = vec![i, j];
+                        if l < menu.len() {
+                            picks.push(l);
+                        }
+                        let reads: Vec<Read> = picks.iter().map(|x| (menu[*x].clone(), vec![30u8; menu[*x].len()])).collect();
+                        for split in 0..2 {
+                            let mut f1 = Vec::new();
+                            let mut f2 = Vec::new();
+                            for (n, r) in reads.iter().enumerate() {
+                                if split == 1 && n % 2 == 1 {
+                                    f2.push(r.clone());
+                                } else {
+                                    f1.push(r.clone());
+                                }
+                            }
+                            let files = [f1, f2];
+                            for c in 1..=3usize {
+                                run_case(rep, &Case { k, rc, c, q: 20, rule: QRule::Strict, files: &files }, "E1");
+                            }
+                        }
+                        rep.corner("overlapping_reads_multiset");
+                    }
+                }
+                if ctx.expired() {
+                    rep.capped = true;
+                    return;
+                }
+            }
+            // E2: one low-quality base at every position of the first read of every pair of reads of g
+            for i in 0..half {
+                if !thorough && k > 5 {
+                    break;
+                }
+                for j in 0..=half {
+                    idx += 1;
+                    if !ctx.mine(idx) {
+                        continue;
+                    }
+                    // ends of the read and the middle base of each of its windows (all positions for small k)
+                    let len = menu[i].len();
+                    let mut positions: Vec<usize> = if k <= 7 { (0..len).collect() } else { vec![0, 1, h - 1, h, h + 1, h + 2, h + 3, len - 2, len - 1] };
+                    positions.retain(|p| *p < len);
+                    positions.sort();
+                    positions.dedup();
+                    for pos in positions {
+                        for lowq in [19u8, 20] {
+                            let mut first: Read = (menu[i].clone(), vec![30u8; menu[i].len()]);
+                            first.1[pos] = lowq;
+                            let mut f1 = vec![first];
+                            let mut f2 = Vec::new();
+                            if j < half {
+                                f2.push((menu[j].clone(), vec![30u8; menu[j].len()]));
+                                if pos % 2 == 0 {
+                                    f1.append(&mut f2);
+                                }
+                            }
+                            let files = [f1, f2];
+                            for rule in [QRule::Middle, QRule::Strict] {
+                                for c in 1..=2usize {
+                                    run_case(rep, &Case { k, rc, c, q: 20, rule, files: &files }, "E2");
+                                }
+                            }
+                        }
+                    }
+                    rep.corner("low_quality_base_in_overlapping_reads");
+                }
+                if ctx.expired() {
+                    rep.capped = true;
+                    return;
+                }
+            }
+        }
+        rep.completed.push(format!("k={k} family E"));
     }
     // Family D: through the CLI
     for (k, c, q, rule) in [(9usize, 2usize, 20u8, QRule::Middle), (31, 3, 20, QRule::Strict), (33, 2, 1, QRule::None), (9, 1, 40, QRule::Strict)] {
